@@ -206,8 +206,7 @@ def guarded(case):
     try:
         return run_case(case)
     except BaseException as e:  # pylint: disable=broad-except
-        import traceback
-        return 'harness: %r %s' % (e, traceback.format_exc()[-500:])
+        return 'harness:' + common.describe_exc(e)
 
 
 def replay(case):
@@ -245,7 +244,7 @@ def run(chk):
         results = pool.map(guarded, cases, chunksize=4)
     for case, v in zip(cases, results):
         if v and v.startswith('harness:'):
-            raise common.Infra(v)
+            common.raise_for(v[len('harness:'):])
         chk.case(repr(case), True, case if len(chk.samples) < 8 and hash(repr(case)) % 9 == 0 else None)
         chk.count('kind:' + case['kind'])
         if v:
